@@ -348,7 +348,9 @@ def check_C08(run, replay):
                 "regrets and zero-probability actions, draws as variates j/997); TLC computes ONE iteration of Cfr.tla exactly "
                 "(symbolic atoms for irrational discounts); the harness injects the state, pins the draws, runs exactly "
                 "iteration t in the production loop with 1 and 2 threads and compares every accumulator, next strategy, "
-                "bounds and the returned normalised average; non-trivial = every case; distinct by canonical JSON")
+                "bounds and the returned normalised average; half of the scale-invariant cases are run with payoffs and regrets "
+                "multiplied by 2^-70 or 2^60 (positive homogeneity; exact in binary floating point); "
+                "non-trivial = every case; distinct by canonical JSON")
     run.assumptions = ["irrational discount factors t^e/(t^e+1), (t/(t+1))^g and the finite-weight softmax are evaluated by "
                        "the harness with f64 powf/exp from the documented formulas (DESIGN 3.1)",
                        "comparison tolerance 1e-10 relative"]
@@ -631,8 +633,9 @@ def check_C06(run, replay):
                 "produced tasks below the root; distinct by (game, method, k, T)")
     run.assumptions = ["schedules of the real thread pool are sampled (repetitions, injected yields in thorough), the "
                        "exhaustive argument over shapes lives in the model", "generic payoffs avoid exact ties (DESIGN 3.4)"]
-    res = tlc("MC_Par", cfg="MC_Par_Full_TRUE", timeout=3000)
+    res = tlc("MC_Par", cfg="MC_Par_Full_TRUE" if run.tier == "quick" else "MC_Par_Full_TRUE_thorough", timeout=6000, xmx="16g")
     run.add_tlc(res)
+    run.notes["shape_model"] = "all ordered trees up to %d nodes" % (11 if run.tier == "quick" else 15)
     # the shared-memory grain: every interleaving of the workers' atomic adds / mutex sections (ParWorkers.tla)
     res = tlc("ParWorkers", cfg="MC_ParWorkers", timeout=3000, workers=4)
     run.add_tlc(res)
@@ -652,8 +655,9 @@ def check_C07(run, replay):
                 "(at most one draw per infoset and pass and only at allowed sites, frontier, exactly-once visits of the "
                 "sampled tree, all lock attempts succeed) and compared with one thread at 1e-9")
     run.assumptions = ["draws pinned through the hook (a pure function of site, infoset and pass)", "as C06"]
-    res = tlc("MC_Par", cfg="MC_Par_External_TRUE", timeout=3000)
+    res = tlc("MC_Par", cfg="MC_Par_External_TRUE" if run.tier == "quick" else "MC_Par_External_TRUE_thorough", timeout=6000, xmx="16g")
     run.add_tlc(res)
+    run.notes["shape_model"] = "all ordered trees up to %d nodes x owner assignments" % (9 if run.tier == "quick" else 13)
     par_check(run, ["Sampled", "External"], 24 if run.tier == "quick" else 200)
 
 
